@@ -118,10 +118,13 @@ def drive(a, rng):
         tr = dict(x=x, kids=[[int(c) for c in tree.children(u)] for u in range(N)], newicks=[])
         roots = [int(r) for r in tree.roots]
         cand = roots + [rng.randrange(N) for _ in range(2)]
-        for root in cand[:4]:
-            prec = rng.choice([None, None, 0, 1, 3, 17])
-            labels = rng.choice(["default", "default", "custom", "none"])
-            withlen = rng.random() < 0.8
+        plan = [(root, None, None, None) for root in cand[:4]]
+        if a.get("_all_default"):      # every precision with default labels and lengths, from the tree's root: the C fast path at its fullest
+            plan = [(roots[0], pr_, "default", True) for pr_ in (None, 0, 1, 3, 17)] + plan[:1]
+        for root, f_prec, f_labels, f_len in plan:
+            prec = rng.choice([None, None, 0, 1, 3, 17]) if f_labels is None else f_prec
+            labels = rng.choice(["default", "default", "custom", "none"]) if f_labels is None else f_labels
+            withlen = (rng.random() < 0.8) if f_len is None else f_len
             kw = dict(root=root, precision=prec)
             labelled = []
             if labels == "custom":
@@ -241,7 +244,23 @@ def run():
         a = gen.random_abstract(rng, N=rng.randint(1, 9), K=rng.randint(1, 4), max_edges=14, nsites=0, nmuts=0, max_time=rng.choice([3, 6]),
                                 p_internal_sample=rng.choice([0.15, 0.4]))
         cases.append(drive(a, rng))
-    # many nodes / long labels: star and caterpillar trees
+    # many labelled nodes: unary chains and caterpillars in which *every* node is a sample (each node then prints a label and a branch
+    # length), 10-30 nodes, with the time scales of TimeScale (spans below 1 as well as huge ones)
+    for i in range(40 if QUICK else 2000):
+        N = rng.choice([10, 11, 12, 20, 30])
+        if rng.random() < 0.5:
+            edges = [dict(left=0, right=1, parent=j + 1, child=j) for j in range(N - 1)]
+            times = list(range(N))
+        else:       # caterpillar: leaves 0..m-1, spine m..N-1
+            m = (N + 1) // 2
+            times = [0] * m + list(range(1, N - m + 1))
+            edges = [dict(left=0, right=1, parent=m, child=0), dict(left=0, right=1, parent=m, child=1)]
+            for j in range(2, m):
+                if m + j - 1 < N:
+                    edges += [dict(left=0, right=1, parent=m + j - 1, child=m + j - 2), dict(left=0, right=1, parent=m + j - 1, child=j)]
+            edges.sort(key=lambda e: (times[e["parent"]], e["parent"], e["child"]))
+        a = dict(L=1, time=times, flags=[1] * N, edges=edges, sites=[], muts=[], _all_default=1)
+        cases.append(drive(a, rng))
     nmain = len(cases)
     for i in range(150 if QUICK else 10000):
         c = fasta_case(rng)
